@@ -70,7 +70,10 @@ def compile_unit(unit, wd, defines=()):
     tag = hashlib.sha1((unit + ' '.join(defines)).encode()).hexdigest()[:10]
     out = os.path.join(wd, os.path.basename(unit).replace('.cpp', '') + '.' + tag + '.ll')
     if os.path.exists(out): return out
-    cmd = ['clang++-14'] + CLANG_FLAGS + ['-D' + d for d in defines] + [src, '-o', out]
+    flags = list(CLANG_FLAGS)
+    for ln in open(src):
+        if ln.startswith('// CLANG-STD:'): flags[0] = '-std=' + ln.split(':', 1)[1].strip()   # e.g. a unit clang-14 only accepts as C++17
+    cmd = ['clang++-14'] + flags + ['-D' + d for d in defines] + [src, '-o', out]
     r = subprocess.run(cmd, capture_output=True, text=True)
     if r.returncode != 0:
         raise RuntimeError('clang failed for %s:\n%s' % (unit, r.stderr[-3000:]))
@@ -129,6 +132,12 @@ def run_job(job, lls, wd):
     return engine_b.run_job(job, lls, wd, ROOT, REPO)
 
 # ----------------------------------------------------------------------------- native replay
+def native_libs(unit):
+    """extra link flags for the native replay of a harness unit: a line '// NATIVE-LIBS: -lfoo' in the unit"""
+    for ln in open(os.path.join(ROOT, 'harness', unit)):
+        if ln.startswith('// NATIVE-LIBS:'): return ln.split(':', 1)[1].split()
+    return []
+
 def native_build(unit, wd, defines=()):
     tag = hashlib.sha1((unit + ' '.join(defines)).encode()).hexdigest()[:10]
     out = os.path.join(wd, 'replay_' + os.path.basename(unit).replace('.cpp', '') + '.' + tag)
@@ -136,7 +145,7 @@ def native_build(unit, wd, defines=()):
     cmd = ['g++', '-std=c++20', '-O0', '-g', '-fsanitize=address,undefined', '-fno-sanitize-recover=undefined', '-rdynamic', '-w',
            '-I' + REPO + '/include', '-I' + REPO, '-I' + ROOT + '/harness/include', '-I' + ROOT + '/harness', '-DVERIF_NATIVE=1',
            '-DVERIF_REPO="' + REPO + '"'] + ['-D' + d for d in defines] + \
-          [os.path.join(ROOT, 'harness', unit), os.path.join(ROOT, 'harness/rt/verif_rt.cpp'), '-o', out, '-ldl', '-lpthread']
+          [os.path.join(ROOT, 'harness', unit), os.path.join(ROOT, 'harness/rt/verif_rt.cpp'), '-o', out, '-ldl', '-lpthread'] + native_libs(unit)
     r = subprocess.run(cmd, capture_output=True, text=True)
     if r.returncode != 0:
         return None
